@@ -232,6 +232,9 @@ func (in *inst) issue(c *mc.Ctx, fn, ticker string, tokenType string, callerAddr
 		return res, u
 	}
 	// well-formed
+	if !tickerShapeOK(ticker) {
+		bad("issued-for-a-ticker-that-is-not-3-to-10-uppercase-alphanumerics", map[string]interface{}{"ticker": ticker, "ticker_hex": hex.EncodeToString([]byte(ticker))})
+	}
 	if !strings.HasPrefix(res.id, ticker+"-") {
 		bad("identifier-does-not-start-with-ticker", map[string]interface{}{"ticker": ticker})
 	} else {
@@ -270,6 +273,19 @@ func (in *inst) issue(c *mc.Ctx, fn, ticker string, tokenType string, callerAddr
 	}
 	in.issued = append(in.issued, issuedTok{res.id, rec})
 	return res, u
+}
+
+// tickerShapeOK is the documented ticker format: 3..10 characters from A-Z and 0-9.
+func tickerShapeOK(t string) bool {
+	if len(t) < 3 || len(t) > 10 {
+		return false
+	}
+	for i := 0; i < len(t); i++ {
+		if !(t[i] >= 'A' && t[i] <= 'Z') && !(t[i] >= '0' && t[i] <= '9') {
+			return false
+		}
+	}
+	return true
 }
 
 func sortStrings(s []string) {
@@ -431,6 +447,47 @@ func main() {
 				}
 			}
 			c.Bound += "; deep unary histories: the same issue x 53 for 3 functions x 3 tickers x 3 first candidates"
+		}
+		// pass (e), both tiers: ticker shapes. One issue on a fresh world for every function x
+		// every ticker obtained from a base of length 2, 3, 4, 10 or 11 by replacing one
+		// position with every byte value 0..255 (plus the empty ticker): an issue that succeeds
+		// must be for a ticker of the documented shape (and is judged like every other issue).
+		// Added after the independent seed C41-2.
+		if !c.Expired() {
+			bases := []string{"AB", "ABC", "A1B2", "A1B2C3D4E5", "A1B2C3D4E5F"}
+			accepted := 0
+			for f := range functions {
+				in := get()
+				try := func(tk string) {
+					in.stub.prefix = prefixes[0]
+					res, u := in.issue(c, functions[f], tk, tokenTypes[f], caller(0), "")
+					c.Eval(1)
+					if res.rc == vmcommon.Ok {
+						accepted++
+					}
+					c.Outcome(fmt.Sprintf("ticker-shape: %s shapeOK=%v", res.rc, tickerShapeOK(tk)))
+					for _, fd := range res.findings {
+						fd.detail["history"] = []string{fmt.Sprintf("%s(ticker hex %s) by c1", functions[f], hex.EncodeToString([]byte(tk)))}
+						c.ViolationR("ticker-shape:"+fd.sig, len(tk)*1000+f, fd.detail, nil)
+					}
+					in.revert(u)
+				}
+				try("")
+				for _, b := range bases {
+					for pos := 0; pos < len(b); pos++ {
+						for v := 0; v < 256; v++ {
+							t := []byte(b)
+							t[pos] = byte(v)
+							try(string(t))
+						}
+					}
+				}
+				put(in)
+			}
+			if accepted > 0 {
+				c.Nontrivial("ticker-shape:some-accepted")
+			}
+			c.Bound += "; ticker shapes: every one-byte replacement (256 values) in bases of length 2,3,4,10,11 x 3 functions"
 		}
 		if !c.Quick() {
 			realHasherWitness(c)
